@@ -1,7 +1,7 @@
 // C10 — recovery is keyed by the seed and never changes the verdict; RecoverOnly agrees with RecoverAndVerify.
 
 fn wrong_seeds(s: &Scalar, rng: &mut impl RngCore, dense: bool) -> Vec<(String, Scalar)> {
-    let mut v = vec![("seed + 1".to_string(), s + Scalar::ONE), ("random".to_string(), rand_scalar(rng)), ("negated".to_string(), -s)];
+    let mut v = vec![("seed + 1".to_string(), s + Scalar::ONE), ("random".to_string(), rand_scalar(rng)), ("negated".to_string(), -s), ("zero".to_string(), Scalar::ZERO), ("one".to_string(), Scalar::ONE)];
     // seeds differing from the right one in a single byte position (structured, not random)
     let bytes: Vec<usize> = if dense { (0..32).collect() } else { vec![0, 1, 15, 16, 30, 31] };
     for i in bytes {
@@ -140,6 +140,47 @@ fn one(ctx: &Ctx, rep: &mut Report, id: usize, cfg: Cfg, k: usize, leg: &str) {
             rep.count("recover_only_vs_recover_and_verify", 1);
             if a != b {
                 rep.violation("C10 recover-only-differs", &format!("RecoverOnly and RecoverAndVerify return different masks on the accepted input `{nm}`"), replay(&nm));
+            }
+        }
+    }
+    // (iv) in a batch the verdict does not depend on which seeds the statements carry (equal, distinct, absent)
+    {
+        let c2 = Case::random(cfg, VALUE_CLASSES[(k + 1) % 6], PROMISE_CLASSES[(k + 2) % 5], true, &mut rng);
+        if let Ok(p2) = c2.prove(&mut prng) {
+            let ts = vec![t.clone(), c2.transcript(), t.clone()];
+            let proofs = vec![proof.clone(), p2.clone(), proof.clone()];
+            let mut bad = proofs.clone();
+            if cfg.mn() > 1 {
+                let mut pp = Parts::of(&p2);
+                pp.s1 = (Scalar::from_canonical_bytes(pp.s1).unwrap() + Scalar::ONE).to_bytes();
+                bad[1] = pp.to_proof().unwrap();
+            }
+            let seedings: Vec<(&str, [Option<Scalar>; 3])> = vec![
+                ("no seeds", [None, None, None]),
+                ("one seed for all", [Some(seed), Some(seed), Some(seed)]),
+                ("own seeds", [Some(seed), c2.seed, Some(seed)]),
+                ("distinct wrong seeds", [Some(wrongs[1].1), Some(wrongs[0].1), Some(wrongs[2].1)]),
+            ];
+            for (which, prs, expect) in [("valid batch", &proofs, true), ("batch with an invalid member", &bad, false)] {
+                if !expect && cfg.mn() == 1 {
+                    continue;
+                }
+                let mut verdicts = vec![];
+                for (sname, ss) in &seedings {
+                    let sts = vec![case.statement_with(&prm, &case.promises, ss[0]), c2.statement_with(&c2.params(), &c2.promises, ss[1]), case.statement_with(&prm, &case.promises, ss[2])];
+                    for action in [VerifyAction::VerifyOnly, VerifyAction::RecoverAndVerify] {
+                        rep.count("batch_verdicts_compared", 1);
+                        verdicts.push((format!("{sname}/{}", action_name(action)), no_panic(|| verify_many(&ts, &sts, prs, action).is_ok()).unwrap_or(false)));
+                    }
+                }
+                rep.eval(&(GROUP, case.key(), "batch-seeds", which));
+                if verdicts.iter().any(|(_, v)| *v != expect) {
+                    rep.violation(
+                        &format!("C10 batch-verdict-depends-on-seeds [{which}]"),
+                        &format!("the verdict on a {which} of three depends on the seeds its statements carry (expected {expect} throughout): {verdicts:?}"),
+                        replay(which),
+                    );
+                }
             }
         }
     }
